@@ -4,5 +4,6 @@ const (
 	c12N              = 3
 	c12Announcers     = 3
 	c12LateN          = 3
+	c12HopLimit       = true // also run every composition with max_hops = N-1
 	c12LateAnnouncers = 2
 )
